@@ -92,7 +92,8 @@ impl Judge for BcJudge {
         let inp = bc_input(m, &prog);
         let r = std::panic::catch_unwind(|| bcverify::verify(&inp));
         match r {
-            Ok(findings) => match findings.first() {
+            // a site-keyed finding ('!') must not hide any other finding of the same program
+            Ok(findings) => match findings.iter().find(|(k, _)| !k.ends_with('!')).or(findings.first()) {
                 Some((k, w)) => JR::Fail { class: k.clone(), what: format!("{w} ({} finding(s) in this program)", findings.len()) },
                 None => JR::Pass { outcome: "wellformed".into(), fingerprint: fnv(&format!("{:?}", inp.bytecode)) },
             },
